@@ -522,3 +522,9 @@ package rlwe
 //@ fieldorder SecretKey
 //@   property C08
 //
+
+//@ afunc NTTSparseAndMontgomery
+//@   trusted opaque at the abstract level: transforms the polynomial in place (to the NTT / Montgomery domain when the metadata say so), reads the metadata only
+//@   requires iscoef(pol)
+//@   assigns pol
+//@   ensures dom(pol) == ite(metadata.CiphertextMetaData.IsNTT, 1, 0) && mexp(pol) == old(mexp(pol)) + ite(metadata.CiphertextMetaData.IsMontgomery, 1, 0)
